@@ -757,7 +757,7 @@ type c19DL struct {
 	Want        int     `json:"want"`  // attempts expected
 	DeadlineOK  []bool  `json:"deadline_ok"`  // Deadline() present and no later than (handler entry + shortest timeout)
 	ErrDeadline []bool  `json:"err_deadline"` // Err() == context.DeadlineExceeded once Done() fired
-	NeverDone   bool    `json:"never_done"`   // Done() did not fire within 5 s
+	NeverDone   bool    `json:"never_done"`   // Done() did not fire within 20 s
 	Restored    bool    `json:"restored"`     // afterwards msg.Context() is the original object and alive
 }
 
@@ -798,7 +798,7 @@ func c19Deadline(g *c19Gen) c19DL {
 		res.DeadlineOK = append(res.DeadlineOK, ok && !dl.After(time.Now().Add(time.Duration(res.DMin))))
 		select {
 		case <-ctx.Done():
-		case <-time.After(5 * time.Second):
+		case <-time.After(20 * time.Second):
 			res.NeverDone = true
 		}
 		res.Dones = append(res.Dones, int64(time.Since(t0)))
